@@ -176,9 +176,10 @@ impl Lattice {
                 }
             }
         }
-        let r_node = self.eos.as_ref().unwrap();
-        for l_node in &self.ends[self.len_char()] {
-            counter.add(r_node.left_id, l_node.right_id, 1);
+        if let Some(r_node) = self.eos.as_ref() {
+            for l_node in &self.ends[self.len_char()] {
+                counter.add(r_node.left_id, l_node.right_id, 1);
+            }
         }
     }
 }
